@@ -109,6 +109,10 @@ fn exec_c06_entropy(p: &Profile, cfg: &RunCfg) -> (RunOut, MonOut) {
     (out, mon)
 }
 
+fn c01_batches(tier: &str) -> Vec<Batch> {
+    vec![Batch { name: "c01-main".into(), profile: Profile::base("c01"), runs: scale(tier, 20_000, 600_000), exec: crate::cup::run_cup, strata: None }]
+}
+
 fn exec_c08(p: &Profile, cfg: &RunCfg) -> (RunOut, MonOut) {
     let (out, _w, _s) = run_sm(p, cfg);
     let mon = c08::monitor(&out);
@@ -318,6 +322,7 @@ fn def(id: &'static str, rule_text: &'static str, assumptions: Vec<&'static str>
 
 pub fn all() -> Vec<PropDef> {
     vec![
+        def("C01", "two-party exchanges (real RequestBuilder + StandardCupv2Handler vs independent signer) with one in-flight mutation each (bit flips of body / retained request / nonce, key id change, hex-digit flips of either ETag half at head and tail, swap, truncation, re-signing, digest re-composition, arbitrary and random ETag text, re-wrapping, replay for another request); verdict compared with the independent reference verifier in both directions; distinct = (mutation kind, verdict, ETag encoding)", vec!["p256/ecdsa/sha2/hex define 'valid signature' (ECDSA (r, n-s) malleability is, consistently, valid)", "http::HeaderValue defines which ETag bytes can arrive at all"], c01_batches),
         def("C02", "seeded whole-flow runs with the real CUP handler; at every request position the adversary may deliver a forgery (unsigned, attacker-signed, tampered body/ETag, replay, forged status with X-Retry-After); a case is one unauthenticated exchange (or authentic one for the dual rule); distinct = (tamper kind, request kind, header present)", vec!["ground truth 'authentic' comes from the independent reference verifier (p256/sha2 trusted)", "a replay is never authentic because nonces and request ids are fresh (checked by C03/C06)"], c02_batches),
         def("C03", "every request sent in whole-flow CUP runs over service-URL variants (path, query, port, IPv6 literal, trailing ?); a case is one request; distinct = (configured URL, query pair count)", vec!["independent string-level URL split"], c03_batches),
         def("C06", "per-attempt outcome sequences (stratified over the adversary alphabet^3 for the first check) with poll-interval interplay; entropy differential re-runs for jitter; a case is one completed check; distinct = attempt-outcome sequence x initial poll state", vec!["X-Retry-After reading per statement; '+N' either way"], c06_batches),
